@@ -54,6 +54,10 @@ fn specs() -> Vec<Spec> {
         // certificates that carry user attributes (an image and an unknown subpacket type)
         Spec { name: "attr-v4", v6: false, primary: Ed25519, sub: X25519, locked: false, cheap: true },
         Spec { name: "attr-v6", v6: true, primary: Ed25519, sub: X25519, locked: false, cheap: true },
+        // protection state differs between the primary key and the encryption subkey (each secret key
+        // packet is protected on its own)
+        Spec { name: "sublocked-v4", v6: false, primary: Ed25519, sub: X25519, locked: false, cheap: true },
+        Spec { name: "primlocked-v6", v6: true, primary: Ed25519, sub: X25519, locked: false, cheap: true },
         Spec { name: "outsider-p256", v6: false, primary: ECDSA(ECCCurve::P256), sub: ECDH(ECCCurve::P256), locked: false, cheap: true },
     ]
 }
@@ -62,7 +66,10 @@ fn gen(spec: &Spec) -> PoolKey {
     pgp::types::verif_clock::set(Some((1_700_000_000, 0)));
     let mut rng = SimRng::new(0x706f6f6c, spec.name, false);
     let version = if spec.v6 { KeyVersion::V6 } else { KeyVersion::V4 };
-    let pw = if spec.locked { Some(KEY_PW.to_string()) } else { None };
+    let lock_primary = spec.locked || spec.name.starts_with("primlocked");
+    let lock_sub = spec.locked || spec.name.starts_with("sublocked");
+    let pw_primary = if lock_primary { Some(KEY_PW.to_string()) } else { None };
+    let pw_sub = if lock_sub { Some(KEY_PW.to_string()) } else { None };
     // cheap S2K for the locked pool keys (the default Argon2 64 MiB / 65 MB iterated hashing
     // would dominate every run that signs or decrypts with them); C08 covers the S2K space.
     let cheap_s2k = |rng: &mut SimRng| -> pgp::types::S2kParams {
@@ -90,8 +97,8 @@ fn gen(spec: &Spec) -> PoolKey {
             }
         }
     };
-    let s2k_primary = if spec.locked { Some(cheap_s2k(&mut rng)) } else { None };
-    let s2k_sub = if spec.locked { Some(cheap_s2k(&mut rng)) } else { None };
+    let s2k_primary = if lock_primary { Some(cheap_s2k(&mut rng)) } else { None };
+    let s2k_sub = if lock_sub { Some(cheap_s2k(&mut rng)) } else { None };
     let mut b = SecretKeyParamsBuilder::default();
     b.version(version)
         .key_type(spec.primary.clone())
@@ -99,7 +106,7 @@ fn gen(spec: &Spec) -> PoolKey {
         .can_sign(true)
         .created_at(Timestamp::from_secs(1_600_000_000))
         .primary_user_id(format!("{} <{}@sim.example>", spec.name, spec.name))
-        .passphrase(pw.clone())
+        .passphrase(pw_primary)
         .user_attributes(if spec.name.starts_with("attr") {
             let img: Vec<u8> = (0..200u32).map(|i| (i * 7 + 1) as u8).collect();
             vec![pgp::packet::UserAttribute::new_image(img.into()).expect("image attribute")]
@@ -113,14 +120,14 @@ fn gen(spec: &Spec) -> PoolKey {
                 .key_type(spec.sub.clone())
                 .can_encrypt(EncryptionCaps::All)
                 .created_at(Timestamp::from_secs(1_600_000_000))
-                .passphrase(pw)
+                .passphrase(pw_sub)
                 .s2k(s2k_sub)
                 .build()
                 .expect("subkey params"),
         );
     let secret = b.build().expect("key params").generate(&mut rng).expect("key generation for the pool");
     let public = secret.to_public_key();
-    PoolKey { name: spec.name, secret, public, password: if spec.locked { KEY_PW } else { "" }, v6: spec.v6, cheap: spec.cheap }
+    PoolKey { name: spec.name, secret, public, password: if lock_primary || lock_sub { KEY_PW } else { "" }, v6: spec.v6, cheap: spec.cheap }
 }
 
 static POOL: OnceLock<Vec<PoolKey>> = OnceLock::new();
